@@ -82,11 +82,77 @@ class Shard:
         if n < limit_per_key:
             self.violations.append({'key': key, 'what': what, 'case': case})
 
+    def merge(self, r):
+        """Add what another shard (as JSON dict) observed."""
+        self.evaluations += r['evaluations']
+        self.nontrivial.update(r['nontrivial'])
+        self.nontrivial_enum += r.get('nontrivial_enum', 0)
+        for k, v in r['counters'].items():
+            self.count(k, v)
+        for x in r['samples']:
+            self.sample(x)
+        for v in r['violations']:
+            if sum(1 for w in self.violations if w['key'] == v['key']) < 3:
+                self.violations.append(v)
+        self.inconclusive.extend(r['inconclusive'])
+        self.space += r.get('space', 0)
+
     def to_json(self):
         return {'evaluations': self.evaluations, 'nontrivial': sorted(self.nontrivial),
                 'nontrivial_enum': self.nontrivial_enum, 'counters': self.counters, 'samples': self.samples,
                 'violations': self.violations, 'inconclusive': self.inconclusive,
                 'exhaustive': self.exhaustive, 'space': self.space}
+
+
+def isolated(fn, sh, *args, timeout=1200):
+    """Run fn(*args, child_shard) in a forked child so that module-level state of the code under test (caches, counters)
+    cannot leak from one case to the next - every real COMA run is a fresh process. The child's observations are merged
+    into sh. A child that dies or hangs makes the case inconclusive."""
+    import pickle
+    import select
+    import signal
+    r, w = os.pipe()
+    pid = os.fork()
+    if pid == 0:
+        code = 0
+        try:
+            os.close(r)
+            child = Shard()
+            try:
+                fn(*args, child)
+            except BaseException:
+                child.inconclusive.append('harness error in isolated case: %s' % traceback.format_exc()[-1200:])
+            hk = sys.modules.get('vf.hooks')
+            if hk is not None and hk.MONITOR_ERRORS:
+                child.inconclusive.append('monitor errors: %s' % hk.MONITOR_ERRORS[:3])
+            data = json.dumps(child.to_json(), default=str).encode()
+            with os.fdopen(w, 'wb') as f:
+                f.write(data)
+        except BaseException:
+            code = 1
+        finally:
+            os._exit(code)
+    os.close(w)
+    chunks = []
+    deadline = time.time() + timeout
+    with os.fdopen(r, 'rb') as f:
+        while True:
+            left = deadline - time.time()
+            if left <= 0:
+                os.kill(pid, signal.SIGKILL)
+                sh.inconclusive.append('isolated case exceeded the %ss watchdog' % timeout)
+                break
+            ready, _, _ = select.select([f], [], [], min(left, 5))
+            if ready:
+                b = f.read1(1 << 20) if hasattr(f, 'read1') else f.read(1 << 20)
+                if not b:
+                    break
+                chunks.append(b)
+    os.waitpid(pid, 0)
+    try:
+        sh.merge(json.loads(b''.join(chunks).decode()))
+    except Exception:
+        sh.inconclusive.append('isolated case died without a result')
 
 
 def load_check(pid):
